@@ -89,7 +89,7 @@ pub fn internals(m: &SharedMemory) -> (Vec<u8>, Vec<usize>, usize) {
         Some(Ev::U(n)) => n,
         _ => panic!("hash layout: last_checkpoint expected"),
     };
-    assert!(it.next().is_none(), "hash layout: trailing data");
+    // further (newer) fields hashed after the three known ones are ignored: they are not observable state of the property
     (buffer, cps, last)
 }
 
